@@ -93,6 +93,7 @@ BITS 64
 
     align   32
 GLOBAL_FUNC mpn_lshift
+	mov     ecx, ecx		; the count is an int argument: the upper half of its register is undefined
 
     xor     EAX, EAX
     sub     Size1, 1
